@@ -222,7 +222,7 @@ pub fn run(ctx: &Ctx) -> i32 {
     let ts = terms(depth - 1);
     let d1 = terms(1);
     let npairs = d1.len() * d1.len();
-    let total = (ts.len() + 2 * npairs) as u64;
+    let total = (ts.len() + 3 * npairs) as u64;
     let (tsr, d1r) = (&ts, &d1);
     let acc = par::sweep(
         total,
@@ -242,6 +242,44 @@ pub fn run(ctx: &Ctx) -> i32 {
                     }
                 }
                 acc.states += all.len() as u64;
+            } else if i >= tsr.len() + 2 * npairs {
+                // the two import sets inside the import declaration of a LIBRARY that re-exports
+                // everything it imported; the program imports that library
+                let k = i - tsr.len() - 2 * npairs;
+                let (t1, t2) = (&d1r[k / d1r.len()], &d1r[k % d1r.len()]);
+                let (n1, n2) = (apply(t1), apply(t2));
+                let conflict = n1.iter().any(|(n, o)| n2.get(n).map(|o2| o2 != o).unwrap_or(false));
+                let mut u = n1.clone();
+                u.extend(n2);
+                if conflict || u.is_empty() {
+                    acc.evals += 1;
+                    acc.exclude("library importing one name with two different bindings / exporting nothing", || format!("{} {}", render(t1, "(lib4 src)"), render(t2, "(lib4 native)")));
+                } else {
+                    let name = format!("user{}", k);
+                    let exports: Vec<String> = u.keys().map(|n| if n.is_empty() { "||".to_string() } else { n.clone() }).collect();
+                    let src = format!("(define-library ({}) (import {} {}) (export {}))", name, render(t1, "(lib4 src)"), render(t2, "(lib4 native)"), exports.join(" "));
+                    let lname = LibraryName(vec![ruschm::parser::LibraryNameElement::Identifier(name.clone())]);
+                    match guarded(|| LibraryFactory::from_char_stream(&lname, src.chars())) {
+                        Ok(Ok(f)) => {
+                            w1.it.it.register_library_factory(f);
+                            // (second worker: the same library under the same name)
+                            if let Ok(Ok(f2)) = guarded(|| LibraryFactory::from_char_stream(&lname, src.chars())) {
+                                w2.it.it.register_library_factory(f2);
+                            }
+                            judge_decl(w1, w2, acc, (i * 100_000) as u64, format!("(import ({}))", name), Some(u), "through-a-library", false);
+                            // the case is reported with the library's text
+                            if let Some(v) = acc.violations.last_mut() {
+                                if v.idx == (i * 100_000) as u64 && !v.case.contains("define-library") {
+                                    v.case = format!("{}\n  where {}", v.case, src);
+                                    v.payload["library"] = json!(src);
+                                    v.payload["library_name"] = json!(name);
+                                }
+                            }
+                        }
+                        Ok(Err(e)) => acc.mismatch(Mismatch { idx: (i * 100_000) as u64, case: format!("[through-a-library] {}", src), expected: "the library definition is accepted".into(), observed: format!("error {}", e), payload: json!({"declaration": format!("(import ({}))", name), "library": src, "library_name": name, "expected": {}}) }, None),
+                        Err(p) => acc.mismatch(Mismatch { idx: (i * 100_000) as u64, case: format!("[through-a-library] {}", src), expected: "the library definition is accepted".into(), observed: format!("PANIC {}", p), payload: json!({"declaration": format!("(import ({}))", name), "library": src, "library_name": name, "expected": {}}) }, None),
+                    }
+                }
             } else if i >= tsr.len() + npairs {
                 // two import DECLARATIONS one after the other on the same interpreter: the second
                 // binds (and re-binds) exactly its own names, whatever the first one bound
@@ -272,7 +310,7 @@ pub fn run(ctx: &Ctx) -> i32 {
             tier: ctx.tier_name(),
             seed: ctx.seed,
             exhaustive: true,
-            rule: "every import-set term of nesting depth <= D over a library exporting a b c d: only / except with every subset of the current names, prefixes p-, q- and the empty prefix, rename with every injective partial map of <= 2 current names into the current names + {e f} without duplicate results (swaps, chains, both orders of the pairs); each term with the library supplied natively, as registered source and as a file; every ordered pair of depth-<=1 terms in one declaration and as two declarations in sequence on one interpreter (the later one re-binds); each declaration on two interpreter instances; states = terms, distinct = distinct binding sets".into(),
+            rule: "every import-set term of nesting depth <= D over a library exporting a b c d: only / except with every subset of the current names, prefixes p-, q- and the empty prefix, rename with every injective partial map of <= 2 current names into the current names + {e f} without duplicate results (swaps, chains, both orders of the pairs); each term with the library supplied natively, as registered source and as a file; every ordered pair of depth-<=1 terms in one declaration and as two declarations in sequence on one interpreter (the later one re-binds), and as the two import sets of a library that re-exports what it imports; each declaration on two interpreter instances; states = terms, distinct = distinct binding sets".into(),
             bounds: json!({"depth": depth, "terms": nterms, "supply_modes": MODES.len(), "union_pairs": npairs}),
             assumptions: vec!["hash seeds cannot be enumerated: two instances per declaration are a sample of the seed space, the term space is exhaustive".into()],
             wall_s: ctx.elapsed(),
@@ -285,6 +323,12 @@ pub fn replay(p: &serde_json::Value) -> bool {
     let decl = p["declaration"].as_str().unwrap();
     setup_files();
     let mut w = new_worker();
+    if let (Some(src), Some(name)) = (p["library"].as_str(), p["library_name"].as_str()) {
+        let lname = LibraryName(vec![ruschm::parser::LibraryNameElement::Identifier(name.to_string())]);
+        if let Ok(f) = LibraryFactory::from_char_stream(&lname, src.chars()) {
+            w.it.it.register_library_factory(f);
+        }
+    }
     let got = import_bindings(&mut w, decl);
     let want: BTreeMap<String, String> = serde_json::from_value(p["expected"].clone()).unwrap_or_default();
     println!("{}\nexpected {:?}\nobserved {:?}", decl, want, got);
